@@ -311,7 +311,11 @@ SkyOnlyZeroes(ivar, flags, ngrow, tbl) ==
 (* writability or byte order of the arrays that carry them.  Stated over a *)
 (* pair of observed calls of the same function on arguments holding the    *)
 (* same values: the two abstracted outcomes are equal.  (Sections 1-5      *)
-(* already say so implicitly: their operators take values only.)           *)
+(* already say so implicitly: their operators take values only.)  The same *)
+(* holds for the numeric TYPE that carries the values: float64, or any     *)
+(* signed / unsigned integer type that holds them exactly (arrays), and    *)
+(* Python numbers, numpy scalars or 0-d arrays (scalar arguments); masks   *)
+(* are 0 / 1 in bool or any integer width.                                 *)
 (*                                                                         *)
 (* For djs_reject on rank >= 2 data the statement leaves the neighbourhood *)
 (* that `grow` uses open; what every reading shares (flat positions in C   *)
